@@ -8,7 +8,7 @@
                     Residues.append / residue_classes / residue_numbers
          atoms.py   Atoms.atomsdict (keys `NAME_RESINUM` in upper case), get_atom_by_name
          shelx.py   _assign_atoms_to_restraints, does_atom_exist
-         It mirrors the code WITH the four repairs fixes/C17_1..4 applied; `Legacy` (end of the file) mirrors
+         It mirrors the code WITH the repairs fixes/C17_1..5 applied; `Legacy` (end of the file) mirrors
          the code as it was before them, and ShelxProps/C17.lean keeps a `decide` witness per difference.
 
   SPEC   what the property says, on parsed data: a token is (NAME, suffix kind); a restraint addresses a list
@@ -154,12 +154,15 @@ structure Outcome where
   classMsg : Bool         -- "has a residue class, but no residues are defined"
 deriving Repr, DecidableEq
 
-/-- one pass of the loop of `_assign_atoms_to_restraints` for restraint `r` -/
-def assign (f : File) (r : Restr) : Except PyErr Outcome := do
+/-- one pass of the loop of `_assign_atoms_to_restraints` for restraint `r`, with the name index as it is -/
+def evaluate (f : File) (r : Restr) : Except PyErr Outcome := do
   let cls ← kwClass r.kw
   let nums ← kwNumbers f r.kw cls
   let classWithout := cls ≠ [] && nums.sum == 0          -- bool(residue_class) and sum(residue_number) == 0
   return { bad := r.atoms.flatMap (checkToken f classWithout nums), classMsg := classWithout }
+
+/-- `_assign_atoms_to_restraints` for restraint `r`: `self.atoms._atomsdict.clear()` first (fix C17_5), then the loop -/
+def assign (f : File) (r : Restr) : Except PyErr Outcome := evaluate { f with cache := [] } r
 
 /-- does the restraint produce any line in `restraint_errors`? -/
 def Outcome.anyMessage (o : Outcome) : Bool := !o.bad.isEmpty || o.classMsg
@@ -257,7 +260,8 @@ def missing (f : File) (r : Restr) : List (Str × Nat) :=
 def wfFile (f : File) : Bool :=
   (f.atoms.all fun a => !(a.name.contains '_')) && (f.resis.all fun r => r.num > 0 && r.cls != [])
 
-/-- the cached name index is empty or agrees with the atom list (what every edit of the atom list has to keep) -/
+/-- the cached name index is empty or agrees with the atom list (what every edit of the atom list has to keep
+    for `get_atom_by_name`; the restraint check no longer depends on it: fix C17_5) -/
 def coherent (f : File) : Bool := f.cache == [] || f.cache == f.atoms.map atomKey
 
 /-- the keyword has no `$` and at most one `_`; what follows is `*`, a number or a class name (starts with a letter) -/
@@ -276,7 +280,7 @@ def wfTok (tok : Str) : Bool :=
    | some s => !(s.contains '_') && (s == ['*'] || (isDigitStr s && natStr (toNat s) == s)))
 
 def WellFormed (f : File) (r : Restr) : Prop :=
-  (wfFile f = true ∧ coherent f = true) ∧ wfKw r.kw = true ∧ ∀ t ∈ r.atoms, wfTok t = true
+  wfFile f = true ∧ wfKw r.kw = true ∧ ∀ t ∈ r.atoms, wfTok t = true
 
 instance (f : File) (r : Restr) : Decidable (WellFormed f r) := by unfold WellFormed; infer_instance
 
@@ -292,7 +296,8 @@ inductive Op
   | rename (i : Nat) (name : Str)     -- shx.atoms.all_atoms[i].name = name
   | add (name : Str)                  -- shx.add_atom(name=name, ...): a new atom in residue 0
   | setResi (i : Nat) (n : Nat)       -- shx.atoms.all_atoms[i].resi = RESI(shx, ['RESI', str(n)])   (plain attribute)
-  | check                             -- _assign_atoms_to_restraints(): the look-ups build the cache
+  | check                             -- _assign_atoms_to_restraints() and a look-up: the index is rebuilt
+  | lookup                            -- get_atom_by_name(...): builds the index if it is empty
 deriving Repr, DecidableEq
 
 /-- `Atom.name` setter refuses `X_12` ("Illegal atom name") -/
@@ -306,7 +311,8 @@ def step (f : File) : Op → File
     else { f with atoms := f.atoms.modify i (fun a => { a with name := nm }), cache := [] }
   | .add nm => { f with atoms := f.atoms ++ [{ name := nm, resi := 0 }], cache := [] }
   | .setResi i n => { f with atoms := f.atoms.modify i (fun a => { a with resi := n }) }
-  | .check => { f with cache := index f }
+  | .check => { f with cache := f.atoms.map atomKey }     -- emptied, then rebuilt by the first look-up
+  | .lookup => { f with cache := index f }
 
 def run (f : File) (ops : List Op) : File := ops.foldl step f
 
